@@ -199,7 +199,7 @@ class Namespace(argparse.Namespace):
 
     def __delitem__(self, key: str) -> None:
         """Deletes an item from a possibly nested namespace."""
-        leaf_key, parent_ns, _ = self._parse_key(key)
+        leaf_key, parent_ns, _ = self._parse_required_key(key)  # (KeyError when a parent of the key does not exist either)
         del parent_ns.__dict__[leaf_key]
 
     def __contains__(self, key: str) -> bool:
